@@ -82,7 +82,8 @@ def run(ctx, only=None):
         ctx.ob("R2", "no-global-write", "library modules", "none of the %d library functions writes a module, class or function attribute, a module constant or a global name" % len(walked), True)
     for m, name, site, kind in module_mutables(prog, LIB):
         uses = name_uses(prog, m.short, name)
-        bad = [(um, n) for um, n, c in uses if c == "mutated"]
+        # a one-shot iterator is changed by every use that is not a plain membership-free read
+        bad = [(um, n) for um, n, c in uses if c == "mutated" or kind.startswith("one-shot iterator")]
         ctx.count("R2.mutable_constants")
         ctx.ob("R2", "mutable-constant|%s.%s" % (m.short, name), site.loc(), "module-level %s %s.%s has %d uses, %s" % (kind, m.short, name, len(uses), "all reads" if not bad else "%d of them mutate it (e.g. %s:%d)" % (len(bad), bad[0][0].relpath, bad[0][1].lineno)), not bad)
 
